@@ -1238,6 +1238,150 @@ Proof.
     rewrite Eh. cbn [rbind]. apply negb_true_iff in Hh. rewrite Hh. reflexivity.
 Qed.
 
+(* one step of the first loop of shiftXML on the remaining input s, in the state (inside a tag, quote, skipped
+   section): the number of bytes moved and the new state; None where the loop ends (NUL / end of input, or "</" +
+   letters that hash to the element's name) *)
+Definition xml_step (raw : Z) (it : bool) (q sk : Z) (s : list Z) : option (Z * bool * Z * Z) :=
+  match s with
+  | [] => None
+  | c :: t =>
+      if c =? 0 then None
+      else if negb (sk =? 0) then
+        if ((sk =? 1) && prefixb [45; 45; 62] s) || ((sk =? 2) && prefixb [93; 93; 62] s) then Some (3, it, q, 0)
+        else if (sk =? 3) && prefixb [63; 62] s then Some (2, it, q, 0)
+        else Some (1, it, q, sk)
+      else if negb (q =? 0) then Some (1, it, (if c =? q then 0 else q), sk)
+      else if it then Some (1, (if c =? 62 then false else it), (if (c =? 34) || (c =? 39) then c else q), sk)
+      else if c =? 60 then
+        if negb (hd 0 t =? 47) then
+          if prefixb [60; 33; 45; 45] s then Some (4, it, q, 1)
+          else if prefixb [60; 33; 91; 67; 68; 65; 84; 65; 91] s then Some (9, it, q, 2)
+          else if hd 0 t =? 63 then Some (2, it, q, 3)
+          else Some (1, negb (hd 0 t =? 33), q, sk)
+        else
+          match to_hash (map lower (letter_run (tl t))) with
+          | Ok h => if h =? raw then None else Some (2 + len (letter_run (tl t)), it, q, sk)
+          | _ => None
+          end
+      else Some (1, it, q, sk)
+  end.
+
+Lemma xml_body_step raw z it q sk s j it' q' sk' : reads z s -> xml_step raw it q sk s = Some (j, it', q', sk') ->
+  xml_body raw (z, it, q, sk) = Ok (Cont (mv z j, it', q', sk')) /\ 1 <= j <= len s.
+Proof.
+  intros Hr H. destruct s as [|c t]; [discriminate|]. unfold xml_step in H.
+  pose proof (len_nonneg t) as Hlt.
+  assert (Hl1 : len (c :: t) = 1 + len t) by (rewrite len_cons; lia).
+  assert (Hpk : pkr z 0 = Ok c) by (apply (reads_pkr z _ 0 c Hr), peekz_cons_0).
+  assert (Hatp : forall pat, nz_list pat -> at_ z pat = Ok (prefixb pat (c :: t))).
+  { intros pat Hnz. destruct Hr as [Hw Hrem]. rewrite at_rem by assumption. rewrite Hrem. reflexivity. }
+  destruct (c =? 0) eqn:E0; [discriminate|].
+  destruct (negb (sk =? 0)) eqn:Esk.
+  { assert (Hb1 : (if sk =? 1 then at_ z [45; 45; 62] else if sk =? 2 then at_ z [93; 93; 62] else Ok false) =
+                  Ok (((sk =? 1) && prefixb [45; 45; 62] (c :: t)) || ((sk =? 2) && prefixb [93; 93; 62] (c :: t)))).
+    { destruct (sk =? 1) eqn:E1; cbn [andb orb].
+      - rewrite Hatp by (repeat constructor; lia).
+        replace (sk =? 2) with false by (symmetry; b2p; apply Z.eqb_neq; lia). cbn [andb]. rewrite orb_false_r. reflexivity.
+      - destruct (sk =? 2); cbn [andb]; [|reflexivity]. apply Hatp; repeat constructor; lia. }
+    assert (Hb2 : (if sk =? 3 then at_ z [63; 62] else Ok false) = Ok ((sk =? 3) && prefixb [63; 62] (c :: t))).
+    { destruct (sk =? 3); cbn [andb]; [|reflexivity]. apply Hatp; repeat constructor; lia. }
+    assert (Hbody : xml_body raw (z, it, q, sk) =
+              (if ((sk =? 1) && prefixb [45; 45; 62] (c :: t)) || ((sk =? 2) && prefixb [93; 93; 62] (c :: t)) then Ok (Cont (mv z 3, it, q, 0))
+               else if (sk =? 3) && prefixb [63; 62] (c :: t) then Ok (Cont (mv z 2, it, q, 0)) else Ok (Cont (mv z 1, it, q, sk)))).
+    { unfold xml_body. rewrite Hpk. cbn [rbind]. rewrite Esk, E0. cbn [negb andb]. rewrite Hb1. cbn [rbind].
+      destruct (((sk =? 1) && prefixb [45; 45; 62] (c :: t)) || ((sk =? 2) && prefixb [93; 93; 62] (c :: t))); [reflexivity|].
+      rewrite Hb2. cbn [rbind]. destruct ((sk =? 3) && prefixb [63; 62] (c :: t)); reflexivity. }
+    rewrite Hbody.
+    destruct (((sk =? 1) && prefixb [45; 45; 62] (c :: t)) || ((sk =? 2) && prefixb [93; 93; 62] (c :: t))) eqn:Ep3.
+    - injection H as <- <- <- <-. split; [reflexivity|].
+      apply orb_true_iff in Ep3. destruct Ep3 as [Ep3|Ep3]; apply andb_true_iff in Ep3; destruct Ep3 as [_ Ep3]; apply prefixb_len in Ep3;
+        unfold len in Ep3 at 1; cbn [length] in Ep3; lia.
+    - destruct ((sk =? 3) && prefixb [63; 62] (c :: t)) eqn:Ep2.
+      + injection H as <- <- <- <-. split; [reflexivity|].
+        apply andb_true_iff in Ep2; destruct Ep2 as [_ Ep2]; apply prefixb_len in Ep2; unfold len in Ep2 at 1; cbn [length] in Ep2; lia.
+      + injection H as <- <- <- <-. split; [reflexivity|lia]. }
+  apply negb_false_iff, Z.eqb_eq in Esk. subst sk.
+  destruct (negb (q =? 0)) eqn:Eq.
+  { injection H as <- <- <- <-. split; [|lia]. unfold xml_body. rewrite Hpk. cbn [rbind Z.eqb negb andb]. rewrite Eq, E0. reflexivity. }
+  apply negb_false_iff, Z.eqb_eq in Eq. subst q.
+  destruct it.
+  { injection H as <- <- <- <-. split; [|lia]. unfold xml_body. rewrite Hpk. cbn [rbind Z.eqb negb andb]. rewrite E0. cbn [negb]. reflexivity. }
+  destruct (c =? 60) eqn:E60.
+  2:{ injection H as <- <- <- <-. split; [|lia]. unfold xml_body. rewrite Hpk. cbn [rbind Z.eqb negb andb]. rewrite E60, E0. reflexivity. }
+  apply Z.eqb_eq in E60. subst c.
+  assert (Hpk1 : pkr z 1 = Ok (hd 0 t)).
+  { destruct t as [|x t1]; cbn [hd].
+    - destruct (reads_end z [60] Hr) as [Hp _]. change (len [60]) with 1 in Hp. unfold pkr. rewrite Hp. reflexivity.
+    - apply (reads_pkr z _ 1 x Hr), peekz_1. }
+  destruct (negb (hd 0 t =? 47)) eqn:E47.
+  { assert (Hbody : xml_body raw (z, false, 0, 0) =
+              (if prefixb [60; 33; 45; 45] (60 :: t) then Ok (Cont (mv z 4, false, 0, 1))
+               else if prefixb [60; 33; 91; 67; 68; 65; 84; 65; 91] (60 :: t) then Ok (Cont (mv z 9, false, 0, 2))
+               else if hd 0 t =? 63 then Ok (Cont (mv z 2, false, 0, 3)) else Ok (Cont (mv z 1, negb (hd 0 t =? 33), 0, 0)))).
+    { unfold xml_body. rewrite Hpk. cbn [rbind Z.eqb Pos.eqb negb andb]. rewrite Hpk1. cbn [rbind]. rewrite E47.
+      rewrite Hatp by (repeat constructor; lia). cbn [rbind]. destruct (prefixb [60; 33; 45; 45] (60 :: t)); [reflexivity|].
+      rewrite Hatp by (repeat constructor; lia). cbn [rbind]. destruct (prefixb [60; 33; 91; 67; 68; 65; 84; 65; 91] (60 :: t)); reflexivity. }
+    rewrite Hbody.
+    destruct (prefixb [60; 33; 45; 45] (60 :: t)) eqn:P4.
+    { injection H as <- <- <- <-. split; [reflexivity|]. apply prefixb_len in P4. unfold len in P4 at 1; cbn [length] in P4. lia. }
+    destruct (prefixb [60; 33; 91; 67; 68; 65; 84; 65; 91] (60 :: t)) eqn:P9.
+    { injection H as <- <- <- <-. split; [reflexivity|]. apply prefixb_len in P9. unfold len in P9 at 1; cbn [length] in P9. lia. }
+    destruct (hd 0 t =? 63) eqn:E63.
+    { injection H as <- <- <- <-. split; [reflexivity|]. destruct t as [|x t1]; [cbn [hd] in E63; discriminate|]. rewrite !len_cons. pose proof (len_nonneg t1). lia. }
+    injection H as <- <- <- <-. split; [reflexivity|lia]. }
+  apply negb_false_iff, Z.eqb_eq in E47.
+  destruct t as [|x t1]; [cbn [hd] in E47; discriminate|]. simpl tl in H. simpl hd in *. subst x.
+  destruct (letter_run_split t1) as (r1 & Et1 & Hlr & Hr1).
+  set (ls := letter_run t1) in *.
+  destruct (to_hash (map lower ls)) as [h| |] eqn:Eh; try discriminate.
+  destruct (h =? raw) eqn:Ehr; [discriminate|].
+  assert (Ej : j = 2 + len ls) by congruence. assert (Eit : it' = false) by congruence. assert (Eq' : q' = 0) by congruence. assert (Esk' : sk' = 0) by congruence.
+  subst j it' q' sk'. clear H.
+  assert (Hlt1 : len t1 = len ls + len r1) by (rewrite Et1 at 1; apply len_app).
+  assert (Hr' : reads z (60 :: 47 :: ls ++ r1)) by (rewrite <- Et1; exact Hr).
+  split; [|rewrite !len_cons; pose proof (len_nonneg ls); pose proof (len_nonneg r1); lia].
+  rewrite (xml_body_endtag raw z ls r1 Hr' Hlr Hr1). rewrite Eh. cbn [rbind]. rewrite Ehr. reflexivity.
+Qed.
+
+(* at the end of input the loop stops ("c == 0") *)
+Lemma xml_body_end raw z it q sk : reads z [] -> xml_body raw (z, it, q, sk) = Ok (Brk (inr z)).
+Proof.
+  intros Hr. destruct (reads_end z [] Hr) as [Hp _]. change (len (@nil Z)) with 0 in Hp.
+  unfold xml_body, pkr. rewrite Hp. cbn [opt_res rbind Z.eqb negb]. rewrite !andb_false_r. reflexivity.
+Qed.
+
+(* content that the end of input cuts: every step of shiftXML's first loop continues, whatever the state at the end *)
+Fixpoint xml_cut_ok (fuel : nat) (raw : Z) (it : bool) (q sk : Z) (s : list Z) : bool :=
+  match s with
+  | [] => true
+  | _ :: _ =>
+      match fuel with
+      | O => false
+      | S k => match xml_step raw it q sk s with
+               | Some (j, it', q', sk') => xml_cut_ok k raw it' q' sk' (skipz j s)
+               | None => false
+               end
+      end
+  end.
+
+Lemma xml_cut_loop raw : forall n s, (length s <= n)%nat -> forall z it q sk fuel,
+  reads z s -> xml_cut_ok n raw it q sk s = true -> (length s < fuel)%nat ->
+  loop fuel (xml_body raw) (z, it, q, sk) = Ok (inr (mv z (len s))).
+Proof.
+  induction n as [|n IH]; intros s Hn z it q sk fuel Hr Hok Hf.
+  all: destruct fuel as [|k]; [lia|]; cbn [loop].
+  all: destruct s as [|c t].
+  1,3: rewrite (xml_body_end raw z it q sk Hr); cbn [rbind]; change (len (@nil Z)) with 0; rewrite mv_0; reflexivity.
+  - cbn [length] in Hn. lia.
+  - cbn [xml_cut_ok] in Hok. destruct (xml_step raw it q sk (c :: t)) as [[[[j it'] q'] sk']|] eqn:Es; [|discriminate].
+    destruct (xml_body_step raw z it q sk _ j it' q' sk' Hr Es) as [Hb Hj]. rewrite Hb. cbn [rbind].
+    pose proof (reads_mv _ _ j Hr ltac:(lia)) as Hr'.
+    assert (Hlen' : len (skipz j (c :: t)) = len (c :: t) - j) by (apply len_skipz; lia).
+    assert (Hls : (length (skipz j (c :: t)) < length (c :: t))%nat) by (unfold len in *; lia).
+    cbn [length] in Hls, Hn, Hf.
+    rewrite (IH (skipz j (c :: t)) ltac:(lia) (mv z j) it' q' sk' k Hr' Hok ltac:(lia)). rewrite mv_mv. do 3 f_equal. lia.
+Qed.
+
 Lemma xml_close_loop_run z ews rest : reads z (ews ++ 62 :: rest) -> Forall (fun c => c <> 62 /\ c <> 0) ews ->
   loop (fuel_of z) xml_close_body z = Ok (inl (mv z (len ews + 1))).
 Proof.
@@ -1344,6 +1488,65 @@ Proof.
   rewrite shiftv_spec by exact Hw5. rewrite Hle. cbn [rbind fst snd orb].
   unfold z2, lx_lower. cbn [mv lbuf lstart lpos so sn skip]. rewrite Ht, Hcl, Hp.
   replace (len pre + 1 + len name + (len inner + 2 + len ename) + (len ews + 1) - len pre) with n by (unfold n; lia).
+  eexists. split; [reflexivity|]. cbn [ltext lz intag rawtag lerr lbuf]. repeat split.
+Qed.
+
+(* "<svg" inner, cut by the end of input: one token, no error *)
+Lemma next_foreign_cut d l pre name inner h :
+  at_input d l pre (60 :: name ++ inner) -> intag l = false -> rawtag l = 0 -> lerr l = false ->
+  (exists c nm, name = c :: nm /\ is_letter c = true) -> Forall namechar name ->
+  to_hash (map lower name) = Ok h -> is_xml_hash h = true ->
+  (inner = [] \/ exists c r, inner = c :: r /\ (is_ws c = true \/ c = 62)) -> xml_cut_ok (length inner) h true 0 0 inner = true ->
+  exists l', next no_tmpl l = Ok (foreign_ty h, Some (mkSl (len pre) (1 + len name + len inner)), l') /\
+    ltext l' = Some (mkSl (len pre + 1) (len name)) /\
+    lbuf (lz l') = lower_view (lbuf (lz l)) (mkSl (len pre + 1) (len name)) /\
+    intag l' = false /\ rawtag l' = 0 /\ lerr l' = false.
+Proof.
+  intros Hat Hit Hraw Hle (c & nm & Ename & Hlet) Hname Hh Hxml Hfirst Hinner.
+  pose proof (at_input_reads _ _ _ _ Hat) as Hr.
+  pose proof Hat as (Hi & Hcl & Hd & Hp).
+  pose proof (len_nonneg name). pose proof (len_nonneg inner).
+  assert (Hstop : tag_stop inner).
+  { destruct Hfirst as [->|(ci & ri & Ei & Hci)]; [left; reflexivity|right]. exists ci, ri. split; [exact Ei|].
+    destruct Hci as [Hw| ->]; [left; exact Hw|right; left; reflexivity]. }
+  unfold next. cbn [lz rawtag intag lerr ltext lattr lhas]. rewrite Hit, Hraw. cbn [Z.eqb negb].
+  unfold next_content. cbn [lz rawtag intag lerr ltext lattr lhas].
+  assert (Hr' : reads (lz l) (60 :: c :: nm ++ inner)) by (rewrite Ename in Hr; exact Hr).
+  destruct (text_loop_dispatch (lz l) c (nm ++ inner) Hr' Hcl) as [Hdisp|Hno]; [|exfalso; apply Hno; tauto].
+  rewrite Hlet in Hdisp. rewrite Hdisp. cbn [rbind].
+  pose proof (reads_mv _ _ 1 Hr ltac:(rewrite len_cons; pose proof (len_nonneg (name ++ inner)); lia)) as Hr1.
+  change (skipz 1 (60 :: name ++ inner)) with (name ++ inner) in Hr1.
+  unfold shift_starttag. rewrite (starttag_loop_run _ name inner Hr1 Hname Hstop). cbn [rbind].
+  pose proof (reads_mv _ _ (len name) Hr1 ltac:(rewrite len_app; lia)) as Hr2. rewrite skipz_app_len in Hr2.
+  destruct Hr2 as [Hw2 Hrem2].
+  rewrite lexeme_from_spec by (exact Hw2 || (cbn [mv lpos lstart]; lia)). cbn [rbind mv lstart lpos].
+  set (t := mkSl (lstart (lz l) + 1) (lpos (lz l) + 1 + len name - lstart (lz l) - 1)).
+  assert (Ht : t = mkSl (len pre + 1) (len name)) by (unfold t; rewrite Hcl, Hp; f_equal; lia).
+  pose proof (lx_wf_len _ Hw2) as [Hbl _].
+  assert (Hlim : len pre + 1 + len name + len inner <= lx_len (lz l)).
+  { pose proof (len_rem _ Hw2) as Hlr. rewrite Hrem2 in Hlr. cbn [mv lpos] in Hlr. unfold lx_len in *. cbn [mv lbuf] in Hlr. lia. }
+  assert (Hbytes : view_bytes (lbuf (lx_lower (mv (mv (lz l) 1) (len name)) t)) t = map lower name).
+  { unfold lx_lower. cbn [lbuf mv]. rewrite Ht. rewrite view_bytes_lower_view by (cbn [so sn]; pose proof (len_nonneg pre); unfold lx_len in *; cbn [mv lbuf] in Hbl; lia).
+    f_equal. unfold view_bytes. cbn [so sn]. replace (len pre + 1 + len name) with (len pre + (1 + len name)) by lia.
+    rewrite (at_input_slice d l pre _ 1 (1 + len name) Hat) by (rewrite ?len_cons, ?len_app; lia).
+    exact (slice_mid' [60] name inner). }
+  rewrite Hbytes, Hh. cbn [rbind]. rewrite (is_xml_raw h Hxml), Hxml.
+  set (z2 := lx_lower (mv (mv (lz l) 1) (len name)) t).
+  assert (Hr3 : reads z2 inner).
+  { apply reads_lower; [split; assumption|rewrite Ht; cbn; pose proof (len_nonneg pre); lia|rewrite Ht; cbn; lia|].
+    rewrite Ht. cbn [so sn mv lpos]. lia. }
+  unfold shift_xml. rewrite loop_with_no_tmpl.
+  rewrite (xml_cut_loop h (length inner) inner (le_n _) z2 true 0 0 (fuel_of z2) Hr3 Hinner).
+  2:{ pose proof (fuel_of_enough z2 inner (len inner) Hr3 ltac:(lia)) as Hfe. unfold len in Hfe. rewrite Nat2Z.id in Hfe. exact Hfe. }
+  cbn [rbind fst snd].
+  pose proof (reads_mv z2 inner (len inner) Hr3 ltac:(lia)) as Hr4.
+  destruct Hr4 as [Hw4 Hrem4].
+  rewrite shiftv_spec by exact Hw4. rewrite Hle. cbn [rbind fst snd orb].
+  assert (Hend : at_end (mv z2 (len inner)) = true).
+  { destruct (reads_end z2 inner Hr3) as [_ He]. unfold at_end. apply Z.leb_le. cbn [mv lpos lbuf]. unfold lx_len in *. cbn [mv lbuf]. lia. }
+  rewrite Hend. cbn [negb].
+  unfold z2, lx_lower. cbn [mv lbuf lstart lpos so sn skip]. rewrite Ht, Hcl, Hp.
+  replace (len pre + 1 + len name + len inner - len pre) with (1 + len name + len inner) by lia.
   eexists. split; [reflexivity|]. cbn [ltext lz intag rawtag lerr lbuf]. repeat split.
 Qed.
 
